@@ -95,3 +95,13 @@ CLAIMED["C07"] = dict(
     text="Decides per path: size evictions only in iterations guarded by weightedSize > maximum and never of zero-weight entries; window transfers only above the window maximum; the eviction callback reports Expiration exactly when the victim is expired at its time, Overflow otherwise; the callback is handed only to the eviction policy (under withEviction) and the timer wheel (under withExpiration) and CauseOverflow originates only there; the wheel expires only on deadline < wheel time. Does not decide 'total weight exceeded the maximum at that moment' numerically.",
     note=TB,
     ref="DESIGN.md §4 C07")
+CLAIMED["C02"] = dict(
+    technique="static analysis: composition of the table's CFG/lock rules, who-may-call censuses, " + PS + " (victim identity, callback exactly once), reachability-based lock-order rule",
+    text="Decides code-shape necessary conditions of linearizability: update function exactly once, under the bucket lock, atomic with its store, after the resize re-checks; the cache mutates its table only via that computation (Clear unused, creators/retirers only under it); automatic removal only by pointer identity; node key/value/weight immutable, mutable node fields atomic; user remapping function exactly once per Compute* call, mapping unchanged on panic; in-flight record cleared inside every mutating computation and waiters released only after the installation; acyclic lock order (nothing reachable from a table computation takes the eviction lock, waits or dispatches a loader; in-flight computations are leaves; no wait/dispatch while the eviction lock may be held). Linearizability itself (histories x schedules) is NOT decided - that needs a history/model checker, a different family.",
+    note=TB + "Assumes sync.Mutex / sync/atomic semantics.",
+    ref="DESIGN.md §4 C02")
+CLAIMED["C19"] = dict(
+    technique="static analysis: guard/dominance rules on the persistence loops, field-fill census of the snapshot, iterator filter guards, sibling boundary agreement",
+    text="Decides structural necessary conditions of save/load fidelity: the snapshot carries key, value, weight and both deadlines of the node; the saved entries come from the eviction-order iterator, which runs maintenance under the lock on every path and yields only alive, unexpired entries; the loader skips deadline <= now (HasExpired's boundary in all variants), re-inserts with Set, then restores max(1, deadline - now) with the same clock sample under the right flag/sentinel guards; both loops stop at the maximum and account weights. Round-trip equality on concrete runs and gob itself are NOT decided.",
+    note=TB + "Assumes Set/SetExpiresAfter/SetRefreshableAfter behave as C01/C12 decide.",
+    ref="DESIGN.md §4 C19")
